@@ -138,6 +138,12 @@ class VectorContainer:
                 f"Attribute with name '{name}' already defined in current object"
             )
 
+        if name.startswith('_') and name[1:] in self.__dict__['index']:
+            raise DuplicateNameError(
+                f"'{name}' is reserved: it is where the variable "
+                f"'{name[1:]}' is stored"
+            )
+
         super().__setattr__(name, value)
         self.__dict__['_attributes'].append(name)
 
